@@ -85,10 +85,12 @@ def build_request(sx, prot, a, o):
 
 
 def mk_values(sx):
-    nm = sx.choose('n_many', [2, 0])
-    na = sx.choose('n_arr', [2, 0])
-    o = {'n': sx.int('n', -10 ** 6, 10 ** 6), 's': sx.text('s', 2, alphabet='ab<& '), 'b': sx.bool('b'),
-         'inner': {'v': sx.int('iv', -9, 9), 'w': sx.text('iw', 1, alphabet='xy')},
+    deep = sx.tier == 'thorough'
+    nm = sx.choose('n_many', [2, 0, 3] if deep else [2, 0])
+    na = sx.choose('n_arr', [2, 0, 3] if deep else [2, 0])
+    big = 10 ** 9 if deep else 10 ** 6
+    o = {'n': sx.int('n', -big, big), 's': sx.text('s', 3 if deep else 2, alphabet='ab<& '), 'b': sx.bool('b'),
+         'inner': {'v': sx.int('iv', -9, 9), 'w': sx.text('iw', 2 if deep else 1, alphabet='xy&')},
          'arr': [sx.int('arr%d' % i, 0, 9) for i in range(na)],
          'many': [sx.int('many%d' % i, 0, 9) for i in range(nm)],
          'tagged': {'id': sx.int('tid', 0, 99), 'name': sx.text('tname', 1, alphabet='pq')},
@@ -152,8 +154,8 @@ FUNCS = ['spyne.protocol.xml.XmlDocument.deserialize', 'spyne.protocol.xml.XmlDo
 
 @harness('C01', params=[(p, v) for p in sorted(PROTS) for v in (None, 'soft')], label=lambda p: '%s validator=%s' % p,
          functions=FUNCS,
-         bounds={'values': 'integer |n| <= 10^6, strings over {a b < & space} (2 chars), boolean, nested object, wrapped '
-                           'array and unwrapped repeated member of 0 or 2 ints, XML attribute, sub_name alias, absent '
+         bounds={'values': 'integer |n| <= 10^6 (thorough: 10^9), strings over {a b < & space} (2 chars; thorough: 3), boolean, nested object, wrapped '
+                           'array and unwrapped repeated member of 0 or 2 ints (thorough: 0, 2 or 3), XML attribute, sub_name alias, absent '
                            'optional member; all leaves symbolic',
                  'symbolic part': 'request routing on a stub element tree; the response and the envelope are checked on '
                                   'every path witness through the real lxml pipeline'})
@@ -241,7 +243,7 @@ def leaf_roundtrip(sx, p):
     elif label == 'Integer':
         v = sx.int('v', -10 ** 12, 10 ** 12)
     elif label == 'Decimal':
-        v = sx.decimal('v', 4, -2)
+        v = sx.decimal('v', 8, -4) if sx.tier == 'thorough' else sx.decimal('v', 4, -2)
     elif label == 'Boolean':
         v = sx.bool('v')
     elif label == 'Date':
@@ -259,7 +261,7 @@ def leaf_roundtrip(sx, p):
         shape = eval(label.split('chunks=')[1])
         v = tuple(sx.text('c%d' % j, n, lo=0, hi=255, bytes_=True) for j, n in enumerate(shape))
     else:
-        v = sx.text('v', 3, alphabet='a <&é')
+        v = sx.text('v', 6 if sx.tier == 'thorough' else 3, alphabet='a <&é')
     if sx.symbolic:
         if label.startswith('ByteArray'):
             text = app.out_protocol.to_unicode(T, v, app.out_protocol.binary_encoding)      # as byte_array_to_parent does
